@@ -230,7 +230,40 @@ class SymV(_VBase):
             m = c.solver.model()
             self.claims.append(ClaimRecord(label, "fail", c.model_values(m)))
         else:
-            self.claims.append(ClaimRecord(label, "unknown", None, c.solver.reason_unknown()))
+            reason = c.solver.reason_unknown()
+            m = self._pinned_witness(z3.Not(e))
+            if m is not None:
+                self.claims.append(ClaimRecord(label, "fail", c.model_values(m), "witness found by pinning inputs"))
+            else:
+                self.claims.append(ClaimRecord(label, "unknown", None, reason))
+
+    def _pinned_witness(self, neg):
+        """the solver gave up on `path condition and neg`: look for a witness with the real-valued inputs pinned to
+        simple values (a search for a counterexample only - a hit is replayed, a miss leaves the claim undecided)"""
+        import random
+
+        c = self.c
+        rnd = random.Random(12345)
+        reals = [v for v in c.inputs.values() if z3.is_real(v)]
+        ints = [v for v in c.inputs.values() if z3.is_int(v)]
+        cands = [0, 1, -1, 2, -2, 0.5, -0.5, 3, -3, 1.5, 0.25, 10, -10, 0.1, 5, -5, 0.01, 100]
+        c.solver.set("timeout", 1500)
+        try:
+            for attempt in range(24):
+                pins = []
+                for v in reals:
+                    if attempt and rnd.random() < 0.15:
+                        continue
+                    pins.append(v == lift(float(rnd.choice(cands[: 6 + attempt]))))
+                for v in ints:
+                    if rnd.random() < 0.5:
+                        pins.append(v == rnd.choice([0, 1, 2, 3, -1, 5]))
+                r = c.check(neg, *pins)
+                if r == z3.sat:
+                    return c.solver.model()
+        finally:
+            c.solver.set("timeout", c.timeout_ms)
+        return None
 
     def fail(self, label, detail=""):
         """the path itself is the violation (e.g. a forbidden exception was caught by the harness)"""
